@@ -4,7 +4,7 @@ import json, os, sys
 from harness import families, runner
 
 VERIF = os.path.dirname(os.path.dirname(os.path.abspath(__file__)))
-WANT = {'F0': 'C05.unrelated', 'F1': 'C04.incomplete', 'F2': 'C03.hang', 'F4': 'C08.regress', 'F5': 'C10.incomplete', 'F9': 'C09.event_bus',
+WANT = {'F0': 'C05.unrelated', 'F1': 'C04.incomplete', 'F2': 'C03.hang', 'F4': 'C08.regress',
         'F11': 'C03.hang', 'G1': 'C02.fifo', 'G2': 'C16.start_after_stop', 'G3': 'C16.start_after_stop'}
 FAMS = ['await_pos', 'recursion', 'fwd3', 'timeout', 'hist', 'life', 'firstuse']
 
